@@ -244,8 +244,13 @@ def _as_int(v, what):
 
 
 class Evaluator:
-    def __init__(self, core, expand_macros=True, env=None, eval_lets=None, resolve=False, expand_sub=False):
-        """env: override dictionary; eval_lets defaults to True when env is given or resolve."""
+    def __init__(self, core, expand_macros=True, env=None, eval_lets=None, resolve=False, expand_sub=False,
+                 expand_a1=False):
+        """env: override dictionary; eval_lets defaults to True when env is given or resolve.
+        expand_a1: a reference to a declared single-qubit alias `map u src[i]` is written as
+        the item src[i] it is declared to be (used when judging passes, which may legitimately
+        respell the reference; not used for the text round trip)."""
+        self.expand_a1 = expand_a1
         self.c = core
         self.expand_macros = expand_macros
         self.ov = dict(env or {})
@@ -345,6 +350,8 @@ class Evaluator:
                     q = self.qubit(a[2], a[3], {})
                     if q is not None:
                         return q
+                if self.expand_a1:
+                    return self.arg(("item", a[2], a[3]), {})
                 return ("alias1", a[1])
             if k == "R":
                 if self.resolve:
@@ -425,15 +432,16 @@ def normalise(t):
     return t
 
 
-def meaning(core, expand_macros=True, env=None, eval_lets=None, resolve=False, expand_sub=False):
+def meaning(core, expand_macros=True, env=None, eval_lets=None, resolve=False, expand_sub=False, expand_a1=False):
     ev = Evaluator(core, expand_macros=expand_macros, env=env, eval_lets=eval_lets, resolve=resolve,
-                   expand_sub=expand_sub)
+                   expand_sub=expand_sub, expand_a1=expand_a1)
     return normalise(ev.stmt(core.body, {}))
 
 
-def macro_meanings(core, env=None, eval_lets=None, resolve=False, expand_sub=False, expand_macros=False):
+def macro_meanings(core, env=None, eval_lets=None, resolve=False, expand_sub=False, expand_macros=False,
+                   expand_a1=False):
     ev = Evaluator(core, expand_macros=expand_macros, env=env, eval_lets=eval_lets, resolve=resolve,
-                   expand_sub=expand_sub)
+                   expand_sub=expand_sub, expand_a1=expand_a1)
     return {name: (params, normalise(ev.stmt(body, {}))) for name, (params, body) in core.macros.items()}
 
 
@@ -520,3 +528,37 @@ def _declared_size(r):
     if d[0] == "whole":
         return _declared_size(d[1])
     return ("sizeof", r[1])
+
+
+def validate(core, env=None):
+    """Raise MeaningError unless every register/alias declaration and every qubit reference
+    that does not depend on a macro parameter is in range under env (declared lets
+    overridden by env) -- whether or not the statement holding it is ever executed."""
+    ev = Evaluator(core, env=env or {}, resolve=True)
+    for r in core.regs.values():
+        if r[0] == "R":
+            ev.elems(r, {})
+        else:
+            ev.qubit(r[2], r[3], {})
+
+    def scan(t):
+        if isinstance(t, tuple):
+            if t and t[0] == "item":
+                base, idx = t[1], t[2]
+                if base[0] == "R" and not (isinstance(idx, tuple) and idx[0] == "param"):
+                    ev.qubit(base, idx, {})
+                return
+            if t and t[0] in ("R", "A1"):
+                return
+            if t and t[0] in ("loop", "sub"):
+                n = t[1]
+                if not (isinstance(n, tuple) and n[0] == "param"):
+                    v = ev.val(n, {}, force=True)
+                    if _as_int(v, "count") < 0:
+                        raise MeaningError("negative-count", str(v))
+            for x in t:
+                scan(x)
+
+    scan(core.body)
+    for _params, body in core.macros.values():
+        scan(body)
